@@ -1,5 +1,4 @@
 import PycModel.Parser.NT
-import PycModel.Generator
 import PycModel.Spec.Tokens
 import PycModel.Spec.Expr
 import PycModel.Generated.ParserTables
@@ -31,9 +30,6 @@ theorem model_string_literal : sameSet stringLiteral Generated.stringLiteral = t
 theorem model_wstr_literal : sameSet wstrLiteral Generated.wstrLiteral = true := by decide
 theorem model_starts_expression : sameSet startsExpressionSet Generated.startsExpression = true := by decide
 theorem model_starts_statement : sameSet startsStatementSet Generated.startsStatement = true := by decide
-theorem model_gen_precedence : sameMap precedenceMap Generated.genPrecedence = true := by decide
-theorem model_gen_visit_methods :
-    sameSet ((Cls.all.filter hasVisitMethod).map Cls.name) Generated.genVisitMethods = true := by decide
 
 def spellingOf (kind : String) : String :=
   ((Generated.opSpelling.find? (·.1 == kind)).map (·.2)).getD "?"
@@ -43,11 +39,6 @@ theorem impl_prec_is_c99 :
     (Generated.binaryPrecedence.all fun (k, p) => Spec.binLevel (spellingOf k) == p &&
       Spec.binOps.contains (spellingOf k)) = true ∧
     Generated.binaryPrecedence.length = Spec.binOps.length := by decide
-
-/-- the generator's precedence map agrees with the parser's on every operator -/
-theorem impl_gen_prec_is_parser_prec :
-    (Generated.binaryPrecedence.all fun (k, p) => Generated.genPrecedence.contains (spellingOf k, p)) = true ∧
-    Generated.genPrecedence.length = Generated.binaryPrecedence.length := by decide
 
 /-- assignment operators are C99 6.5.16's eleven -/
 theorem impl_assign_ops_c99 :
